@@ -86,7 +86,7 @@ def main(argv):
         tier = rec.get("tier", tier)
         nshards = 1
     else:
-        tier = os.environ.get("VERIF_TIER", argv[1])
+        tier = argv[1]  # the command line decides; VERIF_TIER is informational
         if tier not in ("quick", "thorough"):
             print("tier must be quick|thorough")
             return 2
